@@ -7,7 +7,7 @@
 (*                   of depth D is printed as one JSON line (input for the  *)
 (*                   conformance harness)                                   *)
 (*   -simulate       random walks through the same Next                     *)
-EXTENDS StamValidation, Json, SequencesExt
+EXTENDS StamAll, Json, SequencesExt
 
 CONSTANTS MaxRes, MaxSets, MaxAnns, MaxData, MaxKeys, Depth, Scenario, Size, Prelude, Reads, DevShift, EmitAll, P1, P2
 
@@ -164,6 +164,23 @@ PreludeOps ==
                               ann("", TB("Text", ById("r2"), NoRef, Off("B", 1, "B", 1)), <<>>),
                               \* the same characters as a2, elsewhere in the text (shared validation data)
                               ann("a7", TB("Text", ById("r1"), NoRef, Off("B", 8, "B", 11)), <<>>)>>
+         \* 12: complex transpositions between texts sharing three fragments "ab" "cd" "ef" (the first two adjacent in r1,
+         \*     re-ordered in r2), a three-sided one and a simple one
+         \*     r1 = x a b c d y e f     r2 = c d a b z e f      r3 = a b c d e f
+         [] Prelude = 12 -> LET t(r, b, e) == TB("Text", ById(r), NoRef, Off("B", b, "B", e))
+                                dir(s) == Complex("Directional", s)
+                                d3 == <<DB(ById("s1"), ById("k1"), NoRef, StrVal("v1"))>> IN
+                            <<[ev |-> "AddResource", a |-> [id |-> "r1", text |-> <<71, 11, 21, 51, 12, 31, 13, 14>>]],
+                              [ev |-> "AddResource", a |-> [id |-> "r2", text |-> <<51, 12, 11, 21, 41, 13, 14>>]],
+                              [ev |-> "AddResource", a |-> [id |-> "r3", text |-> <<11, 21, 51, 12, 13, 14>>]],
+                              ann("sideA", dir(<<t("r1", 1, 3), t("r1", 3, 5), t("r1", 6, 8)>>), <<>>),
+                              ann("sideB", dir(<<t("r2", 2, 4), t("r2", 0, 2), t("r2", 5, 7)>>), <<>>),
+                              ann("sideC", dir(<<t("r3", 0, 2), t("r3", 2, 4), t("r3", 4, 6)>>), <<>>),
+                              ann("T2", dir(<<TB("Ann", ById("sideA"), NoRef, NoOffset), TB("Ann", ById("sideB"), NoRef, NoOffset)>>), <<>>),
+                              ann("T3", dir(<<TB("Ann", ById("sideA"), NoRef, NoOffset), TB("Ann", ById("sideB"), NoRef, NoOffset), TB("Ann", ById("sideC"), NoRef, NoOffset)>>), <<>>),
+                              ann("S1", dir(<<t("r1", 1, 5), t("r3", 0, 4)>>), <<>>),
+                              ann("w1", t("r1", 1, 2), d3),
+                              ann("w2", dir(<<t("r1", 2, 4), t("r1", 6, 7)>>), d3)>>
          \* 6: metadata annotations on keys/data/sets and annotations on annotations (chain + relative offset)
          [] OTHER -> <<addres, addset, ann("a1", txt(0, 2), d1),
                        ann("", TB("Key", ById("s1"), ById("k1"), NoOffset), <<>>),
@@ -173,18 +190,18 @@ PreludeOps ==
                        ann("", TB("Ann", ById("a1"), NoRef, Off("B", 0, "B", 1)), <<>>),
                        ann("", TB("Ann", ById("a5"), NoRef, NoOffset), d1)>>
 
-ApplyAll(s0, ops) == FoldL(LAMBDA s, op : ApplyV(s, op.ev, op.a).st, s0, ops)
+ApplyAll(s0, ops) == FoldL(LAMBDA s, op : ApplyAny(s, op.ev, op.a).st, s0, ops)
 
 KeysOf(s) == {k \in 1..Len(st.sets[s].keys) : st.sets[s].keys[k].alive}
 DatasOf(s) == {d \in 1..Len(st.sets[s].data) : st.sets[s].data[d].alive}
 
 Step(ev, a) ==
     /\ Len(hist) < Depth + Len(PreludeOps)      \* depth bound as a guard (a CONSTRAINT would still generate the successors)
-    /\ InDomain(st, ev, a)
-    /\ st' = ApplyV(st, ev, a).st
+    /\ InDomainAny(st, ev, a)
+    /\ st' = ApplyAny(st, ev, a).st
     /\ hist' = Append(hist, [ev |-> ev, a |-> a])
 
-Building == Scenario \notin {"remove", "protect"}
+Building == Scenario \notin {"remove", "protect", "transpose"}
 \* tuning steps do not change the specification state, so they are only worth generating when histories are emitted
 Tuning == ~EmitAll
 Adding == Scenario \notin {"remove", "offsets", "related", "textops"}
@@ -193,6 +210,8 @@ TextAlphabet == CASE P2 = 1 -> {11, 41, 12} [] P2 = 2 -> {11, 22, 32} [] P2 = 3 
 TextsUpTo(n, A) == UNION {[1..k -> A] : k \in 0..n}
 Removing == Scenario \in {"all", "remove", "core"}
 \* C18: after protecting, every annotation that selects text validates (a law of the specification itself)
+\* C16: every transposition in the store links piecewise identical text (also the ones transpose() returns)
+InvTranspositions == TranspositionsLinkIdenticalText(st)
 InvProtected == (hist # <<>> /\ hist[Len(hist)].ev = "ProtectText") => ProtectedOK(st)
 
 Next ==
@@ -211,6 +230,12 @@ Next ==
           Step("RemoveKey", [set |-> ByH(s), key |-> ByH(k), strict |-> strict])
     \/ Scenario = "all" /\ Step("StripAnnotationIds", [x |-> 0])
     \/ Scenario = "all" /\ Step("StripDataIds", [x |-> 0])
+    \/ Scenario = "transpose" /\
+          \E x \in {y \in LiveAnns(st) : st.anns[y].id # ""} : \E t \in {y \in LiveAnns(st) : Sides(st, y) # <<>>} :
+              Step("Transpose", [src |-> ByH(x), via |-> ByH(t), tag |-> ToString(Len(hist))])
+    \/ Scenario = "transpose" /\ \E r \in LiveRes(st) : \E x \in RangesOf(Len(st.res[r].text)) :
+          x[1] < x[2] /\ (\A y \in LiveAnns(st) : st.anns[y].id # "src" \o ToString(r) \o ToString(x[1]) \o ToString(x[2])) /\
+          Step("Annotate", [id |-> "src" \o ToString(r) \o ToString(x[1]) \o ToString(x[2]), target |-> TB("Text", ByH(r), NoRef, Off("B", x[1], "B", x[2])), data |-> <<>>])
     \/ Scenario \in {"all", "protect"} /\ \E m \in {"checksum", "text", "both", "auto"} : Step("ProtectText", [mode |-> m])
     \/ Scenario \in {"all", "offsets"} /\ Tuning /\ Step("ShrinkToFit", [x |-> 0])
 
